@@ -211,6 +211,22 @@ def _axis_arrays(g, name):
 
 
 def run_case(cfg):
+    """an exception raised inside jinns (constructor, init_rar, get_batch, trigger_rar, solve) is a datum (codeexc); an exception of
+    the harness is a driver crash"""
+    import os
+    import traceback
+
+    try:
+        return _run_case(cfg)
+    except Exception as ex:  # noqa
+        frames = traceback.extract_tb(ex.__traceback__)
+        inside = [f for f in frames if os.sep + "jinns" + os.sep in f.filename and "/verif/" not in f.filename]
+        if not inside or "/verif/" in frames[-1].filename:
+            raise
+        return dict(cfg=cfg, kind=cfg["kind"], codeexc=f"{type(ex).__name__} at {os.path.basename(inside[-1].filename)}:{inside[-1].lineno}: {str(ex)[:160]}")
+
+
+def _run_case(cfg):
     import jax
     from jinns import _verif
     from jinns.solver._rar import init_rar, trigger_rar
